@@ -84,7 +84,29 @@ impl BuildJob<'_> {
     ) -> Result<Pin<Box<dyn Future<Output = i32> + 'a>>, RedoError> {
         let before_t = try_stat(self.t.as_path()).map_err(RedoError::opaque_error)?;
         debug_assert!(self.lock.is_owned());
-        let (is_target, dirty) = (self.should_build_func)(&mut ptx, &self.t)?;
+        let (is_target, dirty) = match (self.should_build_func)(&mut ptx, &self.t) {
+            Ok(x) => x,
+            Err(e) => {
+                // A target that cannot be built (it already failed in this run,
+                // or it is part of a dependency cycle) is the result of this one
+                // job.  It must not abort the whole builder, which may have
+                // other jobs running whose locks and tokens it still owns.
+                let e: Box<dyn std::error::Error + 'static> = Box::new(e);
+                let rv = match RedoErrorKind::of(&e) {
+                    RedoErrorKind::ImmediateExit(code) => Some(*code),
+                    RedoErrorKind::CyclicDependency => Some(EXIT_CYCLIC_DEPENDENCY),
+                    _ => None,
+                };
+                return match (rv, e.downcast::<RedoError>()) {
+                    (Some(rv), Ok(e)) => {
+                        log_err!("{}: {}\n", &self.t, e);
+                        Ok(Box::pin(future::ready(rv)))
+                    }
+                    (None, Ok(e)) => Err(*e),
+                    (_, Err(e)) => Err(RedoError::opaque_error(e)),
+                };
+            }
+        };
         match dirty {
             Dirtiness::Clean => {
                 // Target doesn't need to be built; skip the whole task.
@@ -786,7 +808,9 @@ where
                     let result = &result;
                     job_futures.push(Box::pin(async move {
                         let rv = job.await;
-                        if rv != EXIT_SUCCESS {
+                        if rv == EXIT_CYCLIC_DEPENDENCY {
+                            result.set(Err(RedoErrorKind::CyclicDependency.into()));
+                        } else if rv != EXIT_SUCCESS {
                             result.set(Err(RedoError::new(format!("{:?}: exit code {}", t, rv))));
                         }
                     }));
@@ -888,7 +912,9 @@ where
                     let result = &result;
                     job_futures.push(Box::pin(async move {
                         let rv = job.await;
-                        if rv != EXIT_SUCCESS {
+                        if rv == EXIT_CYCLIC_DEPENDENCY {
+                            result.set(Err(RedoErrorKind::CyclicDependency.into()));
+                        } else if rv != EXIT_SUCCESS {
                             result.set(Err(RedoError::new(format!("{:?}: exit code {}", t, rv))));
                         }
                     }));
